@@ -11,9 +11,11 @@ impl TieredEngine {
     pub open spec fn doc_needs_clear(c0: ColdView, c1: ColdView, x: HotTierMirrorDocument) -> bool {
         if c0.contains_key(x.0) { entry_diverged(c0[x.0], mirror_of(x)) } else { c1.contains_key(x.0) }
     }
-    /// the canonical record `c` is a repair from the drained document `x`: exactly the mirror's vector and metadata, digest of that vector
+    /// the canonical record `c` is a repair from the drained document `x`: the mirror's metadata and a vector of the mirror's LENGTH
+    /// whose digest is the stored token's digest; it IS the mirror's vector, bit for bit, when the mirror vector passed the pre-flight
+    /// (the backend stores any other accepted vector normalised; a planted / corrupted mirror entry need not be pre-flighted)
     pub open spec fn repaired_from(c: Entry, x: HotTierMirrorDocument) -> bool {
-        c.0 == x.1@ && c.1 == x.2@ && c.2.digest == spec_digest(x.1@)
+        c.0.len() == x.1@.len() && c.1 == x.2@ && c.2.digest == spec_digest(c.0) && (preflight_ok(x.1@) ==> c.0 == x.1@)
     }
     /// the drained document `x` has a canonical record with a different vector: an L1a entry of the id must go
     pub open spec fn l1a_stale(c0: ColdView, x: HotTierMirrorDocument) -> bool {
